@@ -108,6 +108,7 @@ def _shapes(tier, prop=None):
            dict(spec="rand5", sample_only=True, sample_factor=4, sample_part=1, inst_to=60),
            dict(spec="rand5", sample_only=True, sample_factor=4, sample_part=2, inst_to=60, nary=True, policy="random", sched_seed=2, start_order="rev"),
            dict(spec="rand6", sample_only=True, sample_factor=3, sample_part=3, inst_to=80, connected=False, policy="lifo", interleave_start=True)]
+    big.append(dict(spec="rand5", same_dom=True, sample_only=True, sample_factor=4, sample_part=4, inst_to=60, policy="random", sched_seed=3))
     if prop == "C10" and tier == "quick":
         return [q[1], q[6], q[7], big[1]]
     q = q + big
